@@ -115,4 +115,45 @@ theorem tie_runQueueSort : runQueueReturns = ["sorted[i].Container.Priority > so
 
 theorem tie_runQueueInts : runQueueInts = [0, 1, 1, 0, 1, 0, 1] := rfl
 
+/-- lockContainer: uuidLock, then the cached state must still be Queued, then queue.Lock
+(Model.C16_RunQueue.lockContainerCalls) -/
+theorem tie_lockContainerConds : lockContainerConds =
+    ["if !sch.uuidLock(uuid, \"lock\")",
+     "if !ok || ctr.State != arvados.ContainerStateQueued",
+     "if err != nil",
+     "if !ok",
+     "if ctr.State != arvados.ContainerStateLocked"] := rfl
+
+theorem tie_lockContainerCalls : lockContainerCalls =
+    ["sch.uuidLock", "sch.uuidUnlock", "sch.queue.Get", "sch.queue.Lock", "sch.queue.Get"] := rfl
+
+/-- uuidLock refuses exactly when an operation on the uuid is in progress -/
+theorem tie_uuidLock : uuidLockConds = ["if locked"] ∧ uuidLockReturns = ["false", "true"] := ⟨rfl, rfl⟩
+
+/-- the real pool's Create: fails at quota, when throttled, or when MaxConcurrentInstanceCreateOps
+creates are in flight (which also throttles) — the conditions behind `CreateMonotone` and the stub's
+`created < canCreate` -/
+theorem tie_poolCreate : poolCreateConds =
+    ["if wp.loadRunnerData() != nil",
+     "if time.Now().Before(wp.atQuotaUntil) || wp.instanceSet.throttleCreate.Error() != nil",
+     "if wp.maxConcurrentInstanceCreateOps > 0 && len(wp.creating) >= wp.maxConcurrentInstanceCreateOps",
+     "if err != nil",
+     "if ok && err.IsQuotaError()"] ∧
+    poolCreateReturns = ["false", "false", "false", "", "true"] := ⟨rfl, rfl⟩
+
+/-- AtQuota is a time window -/
+theorem tie_poolAtQuota : poolAtQuotaReturns = ["time.Now().Before(wp.atQuotaUntil)"] := rfl
+
+/-- StartContainer succeeds iff an idle worker of the type exists (stub mode `byIdle`) -/
+theorem tie_poolStart : poolStartConds =
+    ["if w.instType == it && w.state == StateIdle && w.idleBehavior == IdleBehaviorRun",
+     "if wkr == nil || w.busy.After(wkr.busy)",
+     "if wkr == nil"] ∧ poolStartReturns = ["false", "true"] := ⟨rfl, rfl⟩
+
+/-- Unallocated counts idle + booting + unknown workers without containers, plus creates in flight -/
+theorem tie_poolUnallocated : poolUnallocConds =
+    ["if !ok || t.After(cc.time)",
+     "if wkr.state == StateShutdown || wkr.state == StateRunning || wkr.idleBehavior != IdleBehaviorRun || len(wkr.running) > 0",
+     "if wkr.state == StateUnknown && creating[it] > 0 && wkr.appeared.After(oldestCreate[it])"] := rfl
+
 end ArvVerif.Tie.C16
